@@ -1,5 +1,224 @@
 import Sentinel.Drv.Common
-/-! Driver for C01 (stub: replaced by the property's real driver) -/
+import Sentinel.Model.Entry
+/-!
+Driver for C01.  `model` = the code-shaped entry lifecycle (`Sentinel.Entry.step`, as-is variant
+`fix = false`), `spec` = the ledger recomputed from the op history (`Sentinel.Entry.info / gauge /
+contrib / recContrib / nodeExists`), evaluated for `fix = true` (what the property demands) and for
+`fix = false` (the as-is account); where the two differ the observation lies in the region of known
+finding `panic-pass-gauge` and the answer is `?known:panic-pass-gauge:<demanded value>`.
+
+Op lines (times are milliseconds relative to the case start; both sides add the same base):
+  clock <ms> | rule iso <res> <T> | rule hot <res>
+  entry <id> <res> in|out <batch> <chain> <nargs> <arg>*      chain = default | c/<pre>/<rules>/<stats>
+  trace <id> <err|nil> | exit <id> [<err>]
+  read <res|__inbound__> sum|sum10 <ev> | read <res|__inbound__> conc|maxconc|minrt
+  ctx <id> err|args | reclog
+The spec keeps the per-key event lists incrementally (`evs (x :: r) k = evs r k ++ contrib r x k` is the
+definition), so that a read does not recompute the whole history.
+-/
 namespace Sentinel.Drv.C01
-def run (_mode : String) : IO Unit := IO.eprintln "C01: driver not implemented"
+open Sentinel.LA Sentinel.Entry Sentinel.Drv
+
+def base : Nat := 1900000000000
+
+structure Cache where
+  keys : List Key := [none]
+  ev : List (Key × List (Nat × Bucket)) := []
+  g : List (Key × Int) := []
+  log : List RecEv := []
+
+def Cache.evOf (c : Cache) (k : Key) : List (Nat × Bucket) := (c.ev.lookup k).getD []
+def Cache.gOf (c : Cache) (k : Key) : Int := (c.g.lookup k).getD 0
+
+/-- extend the cache by op `x` after history `r` (the ledger's own `contrib` / `gaugeDelta` / `recContrib`) -/
+def Cache.push (c : Cache) (fix : Bool) (r : List TOp) (x : TOp) : Cache :=
+  let keys := match x.2 with
+    | .entry e => if c.keys.contains (some e.res) then c.keys else c.keys ++ [some e.res]
+    | _ => c.keys
+  -- `contrib` of an entry op reads `gauge fix r k`: hand it the cached value through the definition's own unfolding
+  let ev := keys.map fun k => (k, c.evOf k ++ (match x.2 with
+    | .entry e =>
+      if (info r e.id).isNone && touches e k then
+        match outcome e.chain with
+        | .block => [(x.1, evBucket .block e.batch)]
+        | o => if o = .pass || fix then [(x.1, concBucket (c.gOf k + 1)), (x.1, evBucket .pass e.batch)] else []
+      else []
+    | _ => contrib fix r x k))
+  let g := keys.map fun k => (k, c.gOf k + gaugeDelta fix r x k)
+  { keys := keys, ev := ev, g := g, log := c.log ++ recContrib fix r x }
+
+structure D where
+  fix : Bool := false        -- `VERIF_C01_FIX=1`: the known finding no longer reproduces, use the repaired variant
+  now : Nat := base
+  mono : Bool := true
+  h : List TOp := []
+  st : St := init base
+  iso : List (String × Nat) := []
+  hot : List String := []
+  drained : Nat := 0
+  drT : Nat := 0
+  drF : Nat := 0
+  cT : Cache := {}
+  cF : Cache := {}
+
+def parseChain? (s : String) : Option Chain :=
+  match s.splitOn "/" with
+  | ["c", p, r, st] =>
+    let pre := (if p = "-" then [] else p.toList).mapM fun c =>
+      if c = 'N' then some Pre.node else if c = 'o' then some Pre.noop else if c = 'x' then some Pre.panic else none
+    let rules := (if r = "-" then [] else r.toList).mapM fun c =>
+      if c = 'n' then some Rule.nil else if c = 'p' then some Rule.pass else if c = 'b' then some Rule.block
+      else if c = 'x' then some Rule.panic else none
+    let sl := if st = "-" then [] else st.toList
+    let std := sl.head? = some 'S'
+    let recs := (if std then sl.drop 1 else sl).mapM fun c => if c.isDigit then some (c.toNat - 48) else none
+    match pre, rules, recs with
+    | some pre, some rules, some recs => some { pre := pre, rules := rules, std := std, recs := recs }
+    | _, _, _ => none
+  | _ => none
+
+def showErr : Option String → String
+  | none => "nil"
+  | some e => e
+
+def showRec : RecEv → String
+  | .passed k res b args => s!"P/{k}/{res}/{b}/{"+".intercalate args}"
+  | .blocked k res b => s!"B/{k}/{res}/{b}"
+  | .completed k res b err rt => s!"C/{k}/{res}/{b}/{showErr err}/{rt}"
+
+def parseKey (s : String) : Key := if s = "__inbound__" then none else some s
+
+def windowLo (Iv now : Nat) : Nat := cbs bucketLen now + bucketLen - Iv
+
+/-- spec-side window payload from the cached event list (`ledWindow` with the cache in place of `evs`) -/
+def specWindow (d : D) (c : Cache) (k : Key) (Iv : Nat) : Option Bucket :=
+  let present := match k with | none => true | some r => nodeExists d.h r
+  if present then some (refW bucketLen (c.evOf k) (windowLo Iv d.now) (cbs bucketLen d.now)) else none
+
+def specConc (d : D) (c : Cache) (k : Key) : Option Int :=
+  let present := match k with | none => true | some r => nodeExists d.h r
+  if present then some (c.gOf k) else none
+
+/-- answer of the spec: the demanded value, flagged when the as-is account differs from it -/
+def twoSided (fix : Bool) (vT vF : String) : String :=
+  if vT = vF || fix then vT else "?known:panic-pass-gauge:" ++ vT
+
+def showOptNat (f : Bucket → Nat) : Option Bucket → String
+  | none => "nil"
+  | some b => toString (f b)
+
+def showOptInt : Option Int → String
+  | none => "nil"
+  | some b => toString b
+
+/-- the built-in rule slots of the default chain, reduced to what the case's rules can make them do:
+    an isolation rule (threshold `T`) blocks iff `max(gauge,0) + batch > T` (it reads `CurrentConcurrency()`
+    of the attached node); otherwise a hotspot rule on argument 0 panics on an unhashable value -/
+def defaultChain (d : D) (spec : Bool) (res : String) (batch : Nat) (args : List String) : Chain :=
+  let conc : Int :=
+    if spec then (if d.fix then d.cT else d.cF).gOf (some res)
+    else match findN d.st.nodes res with
+      | some n => n.conc
+      | none => 0
+  let blocked := match d.iso.lookup res with
+    | some T => decide (conc.toNat + batch > T)
+    | none => false
+  let panics := d.hot.contains res && (match args.head? with | some a => a.startsWith "u:" | none => false)
+  { pre := [.node], rules := [if blocked then .block else if panics then .panic else .pass], std := true, recs := [] }
+
+def apply (d : D) (spec : Bool) (op : Op) : D :=
+  let x : TOp := (d.now, op)
+  if spec then { d with cT := d.cT.push true d.h x, cF := d.cF.push false d.h x, h := x :: d.h }
+  else { d with st := Sentinel.Entry.step d.fix d.st x, h := x :: d.h }
+
+def known (d : D) (spec : Bool) (id : Nat) : Bool :=
+  if spec then (info d.h id).isSome else (findE d.st.ents id).isSome
+
+def step (spec : Bool) (d : D) (ts : List String) (_ : String) : D × Option String :=
+  match ts with
+  | ["clock", t] => match t.toNat? with
+      | some t => ({ d with now := base + t, mono := d.mono && decide (d.now ≤ base + t) }, none)
+      | none => (d, some "bad-op")
+  | ["rule", "iso", res, T] => match T.toNat? with
+      | some T => ({ d with iso := (res, T) :: d.iso }, none)
+      | none => (d, some "bad-op")
+  | ["rule", "hot", res] => ({ d with hot := res :: d.hot }, none)
+  | "entry" :: id :: res :: dir :: batch :: chain :: nargs :: args =>
+      match id.toNat?, batch.toNat?, nargs.toNat? with
+      | some id, some batch, some nargs =>
+        if nargs ≠ args.length || (dir ≠ "in" && dir ≠ "out") || known d spec id || res = "__inbound__" then (d, some "bad-op") else
+        let ch := if chain = "default" then some (defaultChain d spec res batch args) else parseChain? chain
+        match ch with
+        | none => (d, some "bad-op")
+        | some ch =>
+          let e : EntryOp := { id := id, res := res, inbound := dir = "in", batch := batch, args := args, chain := ch }
+          let d' := apply d spec (.entry e)
+          let r := if spec then ledEntered d'.h id else obsEntered d'.st id
+          (d', some (match r with | some true => "pass" | some false => "block" | none => "bad-op"))
+      | _, _, _ => (d, some "bad-op")
+  | ["trace", id, err] => match id.toNat? with
+      | some id => if known d spec id then (apply d spec (.trace id (if err = "nil" then none else some err)), none) else (d, some "bad-op")
+      | none => (d, some "bad-op")
+  | ["exit", id] => match id.toNat? with
+      | some id => if known d spec id then (apply d spec (.exit id none), none) else (d, some "bad-op")
+      | none => (d, some "bad-op")
+  | ["exit", id, err] => match id.toNat? with
+      | some id => if known d spec id then (apply d spec (.exit id (if err = "nil" then none else some err)), none) else (d, some "bad-op")
+      | none => (d, some "bad-op")
+  | ["read", key, what, ev] => match Ev.ofString? ev with
+      | none => (d, some "bad-op")
+      | some ev =>
+        let Iv := if what = "sum10" then 10000 else 1000
+        if what ≠ "sum" && what ≠ "sum10" then (d, some "bad-op") else
+        let k := parseKey key
+        if spec then
+          if !d.mono then (d, some "?") else
+          (d, some (twoSided d.fix (showOptNat (·.get ev) (specWindow d d.cT k Iv)) (showOptNat (·.get ev) (specWindow d d.cF k Iv))))
+        else (d, some (showOptNat (·.get ev) (obsWindow d.st k Iv d.now)))
+  | ["read", key, what] =>
+      let k := parseKey key
+      if what = "conc" then
+        if spec then (d, some (twoSided d.fix (showOptInt (specConc d d.cT k)) (showOptInt (specConc d d.cF k))))
+        else (d, some (showOptInt (obsConc d.st k)))
+      else
+        let f : Bucket → Nat := if what = "maxconc" then (·.mc) else fun b => max 1 b.minRt
+        if what ≠ "maxconc" && what ≠ "minrt" then (d, some "bad-op") else
+        if spec then
+          if !d.mono then (d, some "?") else
+          (d, some (twoSided d.fix (showOptNat f (specWindow d d.cT k 1000)) (showOptNat f (specWindow d d.cF k 1000))))
+        else (d, some (showOptNat f (obsWindow d.st k 1000 d.now)))
+  | ["ctx", id, what] => match id.toNat? with
+      | none => (d, some "bad-op")
+      | some id =>
+        if what ≠ "err" && what ≠ "args" then (d, some "bad-op") else
+        let sh (v : Option String × List String) : String := if what = "err" then showErr v.1 else showList v.2
+        if spec then
+          match info d.h id with
+          | none => (d, some "bad-op")
+          | some i =>
+            if outcome i.e.chain = .block then (d, some "nil") else
+            match ledCtx d.h id with
+            | none => (d, some "exited")
+            | some v => (d, some (sh v))
+        else
+          match findE d.st.ents id with
+          | none => (d, some "bad-op")
+          | some c =>
+            if c.blocked then (d, some "nil") else
+            match obsCtx d.st id with
+            | none => (d, some "exited")
+            | some v => (d, some (sh v))
+  | ["reclog"] =>
+      if spec then
+        let a := showList ((d.cT.log.drop d.drT).map showRec)
+        let b := showList ((d.cF.log.drop d.drF).map showRec)
+        ({ d with drT := d.cT.log.length, drF := d.cF.log.length }, some (twoSided d.fix a b))
+      else
+        ({ d with drained := d.st.log.length }, some (showList ((d.st.log.drop d.drained).map showRec)))
+  | _ => (d, some "bad-op")
+
+def run (mode : String) : IO Unit := do
+  let fix := (← IO.getEnv "VERIF_C01_FIX") == some "1"
+  loop ({ fix := fix } : D) (step (mode == "spec"))
+
 end Sentinel.Drv.C01
